@@ -488,6 +488,16 @@ def TSt.apply (t : TSt) : List Effect → TSt
   | .setKH k h :: r => (t.setKH k h).apply r
   | _ :: r => t.apply r
 
+/-- `Transport.host_key` (what `get_remote_server_key()` returns) after a trace, given its value before:
+    `_verify_key` assigns it as its last statement, unconditionally, once the verification has
+    succeeded — in the first exchange and in every re-exchange alike.  (A `_verify_key` call that is
+    the LAST effect of a trace is one that raised: the step ended there.) -/
+def publishedKey (prev : Option Bytes) : List Effect → Option Bytes
+  | [] => prev
+  | [.verifyKey _ _] => prev
+  | .verifyKey hk _ :: r => publishedKey (some hk) r
+  | _ :: r => publishedKey prev r
+
 /-! ## toy primitives (bit-identical copies live in pv/lib_kex.py) -/
 
 /-- 8-byte polynomial checksum -/
